@@ -384,4 +384,128 @@ theorem Pres.childChanged (env : Env) (fuel p child ci : Nat) (o : Option Val) :
     all_goals (apply Pres.forIn; intro a b; qpres; exact ih _ _ _ _)
 macro_rules | `(tactic| qleaf) => `(tactic| with_reducible apply Pres.childChanged)
 
+/-! ## peeling rules, inversion rules, loop rules -/
+
+theorem run_bind_ok {α β} {x : M α} {f : α → M β} {s s1 : State} {a : α}
+    (h : x.run.run s = (.ok a, s1)) : (x >>= f).run.run s = (f a).run.run s1 := by
+  rw [run_bind, h]
+
+theorem run_bind_get {β} (f : State → M β) (s : State) : (get >>= f).run.run s = (f s).run.run s :=
+  run_bind_ok (run_get s)
+theorem run_bind_modify {β} (g : State → State) (f : Unit → M β) (s : State) :
+    (modify g >>= f).run.run s = (f ()).run.run (g s) := run_bind_ok (run_modify g s)
+theorem run_bind_modNode {β} (n : Nat) (g : Node → Node) (f : Unit → M β) (s : State) :
+    (modNode n g >>= f).run.run s = (f ()).run.run { s with nodes := s.nodes.modify n g } :=
+  run_bind_ok (run_modNode n g s)
+theorem run_bind_bumpCounter {β} (g : Counters → Counters) (f : Unit → M β) (s : State) :
+    (bumpCounter g >>= f).run.run s = (f ()).run.run { s with counters := g s.counters } :=
+  run_bind_ok (run_bumpCounter g s)
+
+def touched (n : Nat) (s : State) : State :=
+  { s with nodes := s.nodes.modify n fun x => { x with changedAt := s.stabNum },
+           counters := { s.counters with changed := s.counters.changed + 1 } }
+
+theorem mcvm_true_quiet (env : Env) (fuel n : Nat) (o : Option Val) (b : Bool) (s s' : State)
+    (r : Except Panic (Option Nat))
+    (h : (maybeChangeValueManual env fuel n o true b).run.run s = (r, s')) :
+    Quiet (touched n s) s' := by
+  unfold maybeChangeValueManual at h
+  simp only [Bool.not_true, Bool.false_eq_true, if_false, run_bind_get, run_bind_modNode,
+    run_bind_bumpCounter] at h
+  refine Pres.h ?_ _ _ _ h
+  qpres
+  all_goals (apply Pres.forIn; intro a b; qpres)
+
+theorem getNode_ok_inv {n : Nat} {s s' : State} {nd : Node}
+    (h : (getNode n).run.run s = (.ok nd, s')) : s' = s ∧ s.nodes[n]? = some nd := by
+  rw [run_getNode] at h
+  cases hn : s.nodes[n]? with
+  | none => rw [hn] at h; cases h
+  | some x => rw [hn] at h; cases h; exact ⟨rfl, rfl⟩
+
+theorem get_ok_inv {s s' a : State} (h : (get : M State).run.run s = (.ok a, s')) : a = s ∧ s' = s := by
+  rw [run_get] at h; cases h; exact ⟨rfl, rfl⟩
+
+theorem dassert_ok_inv {c : Bool} {site : String} {s s' : State} {u : Unit}
+    (h : (dassert c site).run.run s = (.ok u, s')) : s' = s := by
+  rw [run_dassert] at h
+  split at h <;> cases h
+  rfl
+
+theorem pure_ok_inv {α} {a r : α} {s s' : State} (h : (pure a : M α).run.run s = (.ok r, s')) :
+    r = a ∧ s' = s := by
+  rw [run_pure] at h; cases h; exact ⟨rfl, rfl⟩
+
+/-- a successful `insert`: the node exists, its height is within the heap, and it is now marked -/
+theorem rchInsert_ok_inv {n : Nat} {s s' : State} {u : Unit}
+    (hr : (rchInsert n).run.run s = (.ok u, s')) :
+    ∃ nd, s.nodes[n]? = some nd ∧ 0 ≤ nd.height ∧ nd.height ≤ s.rch.maxAllowed ∧
+      s' = inserted n nd.height s := by
+  rw [rchInsert_run] at hr
+  cases hn : s.nodes[n]? with
+  | none => rw [hn] at hr; cases hr
+  | some nd =>
+    rw [hn] at hr
+    simp only at hr
+    by_cases h1 : s.cfg.debug = true ∧ (!nd.inRch && s.needsToBeComputed n) = false
+    · rw [if_pos h1] at hr; cases hr
+    rw [if_neg h1] at hr
+    by_cases h2 : s.cfg.debug = true ∧ nd.height > s.rch.maxAllowed
+    · rw [if_pos h2] at hr; cases hr
+    rw [if_neg h2] at hr
+    by_cases h3 : nd.height < 0
+    · rw [if_pos h3] at hr; cases hr
+    rw [if_neg h3] at hr
+    by_cases h4 : nd.height > s.rch.maxAllowed
+    · rw [if_pos h4] at hr; cases hr
+    rw [if_neg h4] at hr
+    cases hr
+    exact ⟨nd, rfl, by omega, by omega, rfl⟩
+
+theorem rchInsert_ok_inRch {n : Nat} {s s' : State} {u : Unit}
+    (hr : (rchInsert n).run.run s = (.ok u, s')) :
+    n < s'.nodes.size ∧ (s'.nodeD n).inRch = true := by
+  obtain ⟨nd, hn, h0, _, rfl⟩ := rchInsert_ok_inv hr
+  have hlt := lt_of_some hn
+  refine ⟨by simpa [inserted] using hlt, ?_⟩
+  rw [inserted_nodeD, if_pos ⟨rfl, hlt⟩]
+  simpa [Node.inRch] using h0
+
+
+/-- loop rule: a state predicate kept by every iteration is kept by the loop -/
+theorem forIn_keep {α} (K : State → Prop) (f : α → PUnit → M (ForInStep PUnit))
+    (hkeep : ∀ b s r s', K s → (f b ⟨⟩).run.run s = (r, s') → K s') (l : List α) :
+    ∀ s r s', K s → (forIn l PUnit.unit f).run.run s = (r, s') → K s' := by
+  induction l with
+  | nil => intro s r s' hk h; rw [List.forIn_nil, run_pure] at h; cases h; exact hk
+  | cons a l ih =>
+    intro s r s' hk h
+    rw [List.forIn_cons, run_bind] at h
+    rcases hx : (f a ⟨⟩).run.run s with ⟨x | x, s1⟩
+    · rw [hx] at h; cases h; exact hkeep a s _ _ hk hx
+    · rw [hx] at h
+      have hk1 := hkeep a s _ _ hk hx
+      cases x with
+      | done b => simp only [run_pure] at h; cases h; exact hk1
+      | yield b => exact ih s1 r s' hk1 h
+
+/-- loop rule with a per-element postcondition that later iterations keep -/
+theorem forIn_post {α} (P : α → State → Prop) (f : α → PUnit → M (ForInStep PUnit))
+    (hkeep : ∀ a b s r s', P a s → (f b ⟨⟩).run.run s = (r, s') → P a s')
+    (l : List α)
+    (hpost : ∀ a, a ∈ l → ∀ s r s', (f a ⟨⟩).run.run s = (.ok r, s') → r = .yield ⟨⟩ ∧ P a s') :
+    ∀ s r s', (forIn l PUnit.unit f).run.run s = (.ok r, s') → ∀ a, a ∈ l → P a s' := by
+  induction l with
+  | nil => intro s r s' _ a ha; cases ha
+  | cons a l ih =>
+    intro s r s' h
+    rw [List.forIn_cons] at h
+    obtain ⟨x, s1, hx, hrest⟩ := bind_ok_inv h
+    obtain ⟨rfl, hp⟩ := hpost a (List.mem_cons_self ..) s x s1 hx
+    simp only at hrest
+    intro a' ha'
+    rcases List.mem_cons.1 ha' with rfl | hmem
+    · exact forIn_keep (P a') f (hkeep a') l s1 _ s' hp hrest
+    · exact ih (fun a ha => hpost a (List.mem_cons_of_mem _ ha)) s1 r s' hrest a' hmem
+
 end IncrVerif.Proofs.Step
